@@ -19,6 +19,48 @@ def count_entry(E):
                                                             is_whole(b.multiplier)))))
 
 
+WIGM_COUNTS_FIXED = ['droop.rules.wigm_prf.Rule.count', 'droop.rules.cfer.Rule.count', 'droop.rules.scotland.Rule.count']
+
+
+@contract(WIGM_COUNTS_FIXED, props=['C01', 'C09'])
+def wigm_family_count(self: 'any_rule'):
+    "statutory WIGM rules (fixed-point arithmetic): same counter-level contract as the parametric rule"
+    E = self.E
+    requires(count_entry(E))
+    ensures(ghost('nH') == 0, name='every candidate is decided: nobody is left hopeful')
+    ensures(ghost('nP') == 0, name='no transfer is left pending')
+    ensures(ghost('nW') == old(ghost('nW')), name='withdrawn candidates never change')
+    ensures(ghost('nE') >= E.electionProfile.nSeats, name='the seats are filled (W2)')
+    modifies_all(Candidate, 'state', 'pending', 'vote')
+    modifies_all(Ballot, 'index', 'weight')
+    modifies(E, 'quota', 'exhausted', 'round', 'surplus')
+    modifies_ghost('nH', 'nE', 'nD', 'nP', 'nlog', 'lasttag', 'lastmsg')
+
+
+@loops(['droop.rules.wigm_prf.Rule.count'], anchor='while#1')
+def wigm_prf_main_loop(self):
+    E = self.E
+    invariant(forall('ref:droop.candidate.Candidate',
+                     lambda c: implies(and_(in_election(c), c.state == 'elected', truthy(c.pending)), holds_quota(c, E))))
+    invariant(E.quota > E.V0)
+    invariant(ghost('nH') + ghost('nE') >= E.electionProfile.nSeats)
+    variant(2 * ghost('nH') + ghost('nP'))
+
+
+BATCH_DEFEATS = ['droop.rules.wigm_prf.Rule.count.<locals>.batchDefeat', 'droop.rules.cfer.Rule.count.<locals>.batchDefeat']
+
+
+@contract(BATCH_DEFEATS, props=['C07', 'C01'], free={'E': 'Election', 'C': 'Candidates'},
+          trusted='grouped / sliced prefix scan over a sorted list built with list.append: outside the verified subset; '
+                  'its postcondition is checked by the bounded stand-in on the mechanically extracted closure (DESIGN 6/C07)')
+def batch_defeat() -> 'abs:Candidate':
+    "sure losers: all hopeful, and enough hopefuls remain to fill the seats"
+    ensures(forall(result, lambda c: and_(in_election(c), c.state == 'hopeful')))
+    ensures(length(result) >= 0)
+    ensures(length(result) <= ghost('nH') - (E.electionProfile.nSeats - ghost('nE')), name='enough candidates remain')
+    modifies()
+
+
 @contract('droop.rules.wigm.Rule.count', props=['C01', 'C09'], instances=['scaled', 'real'])
 def wigm_count(self: 'WigmRule'):
     E = self.E
